@@ -146,17 +146,54 @@ func (it *Interp) storeRangeIterator(v *StoreView, start, end *StrV, reverse boo
 		ks = append(ks, rel)
 		vs = append(vs, vals[i])
 	}
-	if opaqueKeys > 0 && len(ks) > 1 {
-		it.fail("iteration order over %d keys of which %d are opaque is not encodable", len(ks), opaqueKeys)
+	// the bytes every key is known to start with (relative to the iterated prefix): an ordering decision that involves
+	// an opaque key is taken from these literal leading bytes when they differ; otherwise the order is not encodable
+	lead := func(k *StrV) string {
+		if isPlainB(k) {
+			b := []byte{}
+			for _, t := range k.Bytes {
+				if !t.IsConst() {
+					break
+				}
+				b = append(b, byte(t.val.Uint64()))
+			}
+			return string(b)
+		}
+		kp, _ := it.knownPrefix(it.toA(k))
+		if k.fullKey && v.prefix != nil {
+			if pre, ok := v.prefix.concreteString(); ok && len(kp) >= len(pre) {
+				return kp[len(pre):]
+			}
+			return ""
+		}
+		return kp
 	}
 	// insertion sort by key, branching on comparisons
 	for i := 1; i < len(ks); i++ {
 		for j := i; j > 0; j-- {
-			if !isPlainB(ks[j]) || !isPlainB(ks[j-1]) {
-				it.fail("iteration order needs structured keys")
+			var less bool
+			if isPlainB(ks[j]) && isPlainB(ks[j-1]) {
+				lt, _ := it.bytesLess(ks[j].Bytes, ks[j-1].Bytes)
+				less = it.p.branch(lt)
+			} else {
+				a, b := lead(ks[j]), lead(ks[j-1])
+				n := len(a)
+				if len(b) < n {
+					n = len(b)
+				}
+				d := -1
+				for x := 0; x < n; x++ {
+					if a[x] != b[x] {
+						d = x
+						break
+					}
+				}
+				if d < 0 {
+					it.fail("iteration order over %d keys of which %d are opaque is not encodable (keys %s and %s are not separated by their literal leading bytes)", len(ks), opaqueKeys, it.describe(ks[j]), it.describe(ks[j-1]))
+				}
+				less = a[d] < b[d]
 			}
-			lt, _ := it.bytesLess(ks[j].Bytes, ks[j-1].Bytes)
-			if !it.p.branch(lt) {
+			if !less {
 				break
 			}
 			ks[j], ks[j-1] = ks[j-1], ks[j]
@@ -183,6 +220,18 @@ func (it *Interp) storePrefixIterator(v *StoreView, prefix *StrV, reverse bool) 
 	d := r.V.(*Native).Data.(*iterData)
 	for i := range d.keys {
 		if d.keys[i].fullKey {
+			// a full store key: report it relative to the prefix store the iterator was opened on
+			if v.prefix != nil {
+				outer, okO := v.prefix.concreteString()
+				kt := d.keys[i].T
+				if okO && kt.op == "app" && kt.name == "concat" {
+					if a, ca := it.knownPrefix(kt.args[0]); ca && a == outer {
+						d.keys[i] = it.fromA(kt.args[1])
+						continue
+					}
+				}
+				it.fail("prefix iteration: cannot strip the store prefix %s from the opaque key %s", it.describe(v.prefix), it.describe(d.keys[i]))
+			}
 			continue
 		}
 		d.keys[i] = it.strConcat(prefix, d.keys[i])
